@@ -276,6 +276,16 @@ class C04(Prop):
                     continue
                 if n in case["unique"]:
                     fails.append(dict(what="NameError for a name with a unique known import when running the result", name=n, **ctx))
+            # 1b. (listed finding D67) a read `a.b.x` whose dotted prefix `a.b` is the database's only import binding
+            #     `a` (`import a.b`): tidy-imports looks up the first component only and adds nothing
+            for n in obs.get("name_errors", []):
+                if n in case["unique"]:
+                    continue
+                dotted = [k for k in case["known"] if k.startswith("import %s." % n) and " as " not in k]
+                others = [k for k in case["known"] if k not in dotted and
+                          any((asn or nm.split(".")[0]) == n for _, _, nm, asn in R.top_imports(k + "\n"))]
+                if len(dotted) == 1 and not others and re.search(r"(?<![\w.])%s\." % re.escape(dotted[0][len("import "):]), text):
+                    fails.append(dict(what="a dotted database entry is not used for a dotted read", name=n, entry=dotted[0], **ctx))
         # 2. nothing is guessed: every top-level import that was added is a unique candidate or mandatory
         added = canon(imp_out)
         for i in canon(imp_in):
@@ -357,7 +367,7 @@ class C04(Prop):
         k = "final_ok" if e is None else "final_" + e.split(":")[0]
         acc[k] = acc.get(k, 0) + 1
 
-    families = {}
+    families = {"dotted_db_entry": lambda case, failure: failure.get("what") == "a dotted database entry is not used for a dotted read"}
 
 
 def _module_deletes(text, name):
